@@ -48,7 +48,7 @@ func (engine *XPath) SetItemAwareLocator(name string, itemAwareLocator data.IIte
 }
 
 func Make(ctx context.Context) XPath {
-	return XPath{ctx: ctx}
+	return XPath{ctx: ctx, itemAwareLocators: make(map[string]data.IItemAwareLocator)}
 }
 
 func New(ctx context.Context) *XPath {
